@@ -625,7 +625,7 @@ class SymCtx(BaseCtx):
                 dom = []  # this path belongs to the job of a longer prefix
             if not dom:
                 self.dead = True
-                return 0
+                return 0 if enabled is None else (list(enabled)[0] if enabled else 0)
         feas = [k for k in dom if self._check(v == k)]
         if not feas:
             self.dead = True
